@@ -34,6 +34,7 @@ NumToStr(x) ==
     [] x.t = "nan" -> Lit("NaN")
     [] x.t = "inf" -> IF x.s = 1 THEN Lit("Infinity") ELSE <<45>> \o Lit("Infinity")
     [] x.t = "nzero" -> <<48>>
+    [] x.t = "big" -> <<>>
 IsWS(c) == c \in {9, 10, 11, 12, 13, 32, 160, 65279, 8232, 8233}
 RECURSIVE TrimL(_)
 TrimL(cs) == IF cs # <<>> /\ IsWS(Head(cs)) THEN TrimL(Tail(cs)) ELSE cs
